@@ -63,8 +63,8 @@ def run(tier):
                        [dict(N=3000, fs=1.0, data="offset", sched="ltf", win="hann", order=-1, backend=b, Jdes=30, Kdes=5, Lmin=1, psll=120,
                              variants=[("alone",), ("swap",)]) for b in ("numpy", "numba")] +
                        # bins within 1e-3 rad of DC and of Nyquist (long record, order -1): swapping the channels conjugates the cross spectrum there too
-                       [dict(N=20000, fs=1.0, data="delay_coupled", sched="ltf", win="hann", order=-1, backend="numba", Jdes=60, Kdes=5, Lmin=1, psll=120,
-                             variants=[("alone",), ("swap",)])] +
+                       [dict(N=20000, fs=1.0, data="delay_coupled", sched="ltf", win="hann", order=o, backend=b, Jdes=60, Kdes=5, Lmin=1, psll=120,
+                             variants=[("alone",), ("swap",), ("swapsingle",)]) for (o, b) in ((-1, "numba"), (0, "numpy"))] +
                        [dict(N=131072, fs=1.0, data="hugeoffset", sched="vectorized_ltf", win="hann", order=0, backend="numba", Jdes=40, Kdes=50, Lmin=1, psll=120,
                              variants=[("alone",), ("swap",)])])       # (no gain variant: inside the main lobe the rounding of the removed mean is not small)
     items = [(k, o, b, s, f) for k in ("zero_y", "zero_x", "const", "identical", "negated", "both_zero") for o in (-1, 0, 1, 2)
